@@ -14,7 +14,11 @@ Code modelled, branch by branch:
   * openapi3filter/validate_request.go `ValidateRequestBody`             → `validateRequestBody`
   * openapi3/schema.go `visitJSON` / `visitJSONObject` … with `VisitAsRequest()` on the schema fragment `RS`
         (type, nullable, readOnly, writeOnly, minLength, maximum, properties, required,
-         additionalProperties: true|false, items)                        → `visit`
+         additionalProperties: true|false, items, not, oneOf, anyOf, allOf) → `visit` = `visitV` (own keywords,
+         recursion over the value) over `comp` (visitNotOperation / visitXOFOperations, recursion over the schema)
+  * property declarations inside allOf/anyOf/oneOf members of a form schema (`decodeSchemaConstructs`)
+        → `flatDecls`, `mergeKV`; composition keywords inside a property schema (`decodeValue`) → `decodePropC`
+  * `MultipartBodyDecoder` against schemas with `allOf`                    → `partDecl`, `assemblyProps`
 
 Specification side (written from the property text, not from the control flow): `candidates`/`firstSome`
 (precedence list), `SatReq` (+ executable `satReqB`), `specFormProp(s)`/`encodeForm` (what form fields encode,
@@ -596,6 +600,45 @@ def decodeFormProp (fields : List (Str × List Str)) (name : Str) (p : RS) (e : 
 def primTy (t : Option Ty) : Bool :=
   t == some .string || t == some .integer || t == some .number || t == some .boolean
 
+/-- the property schema itself carries a composition keyword -/
+def hasCompP (p : RS) : Bool := !(p.allOf.isEmpty && p.anyOf.isEmpty && p.oneOf.isEmpty && p.nt.isNone)
+
+mutual
+/-- `decodeValue` with its composition branches (in the code's order: allOf, anyOf, oneOf, not, type):
+`none` = error, `some .null` = nil value -/
+def decodePropC (fields : List (Str × List Str)) (name : Str) (e : Option Enc) : RS → Option V
+  | .mk ty n r w ml mx props req a items nt oneOf anyOf allOf =>
+    if !allOf.isEmpty then decAll fields name e allOf .null
+    else if !anyOf.isEmpty then some (decAny fields name e anyOf)
+    else if !oneOf.isEmpty then some (decOne fields name e oneOf .null)
+    else if nt.isSome then none          -- "not implemented: decoding 'not'"
+    else decodeFormProp fields name (.mk ty n r w ml mx props req a items nt oneOf anyOf allOf) e
+/-- allOf: every member decodes the same field; the loop stops at a nil value or an error; the LAST value counts -/
+def decAll (fields : List (Str × List Str)) (name : Str) (e : Option Enc) : List RS → V → Option V
+  | [], acc => some acc
+  | x :: r, _ =>
+    match decodePropC fields name e x with
+    | none => none
+    | some .null => some .null
+    | some v => decAll fields name e r v
+/-- anyOf: the first member with a non-nil value (errors are ignored) -/
+def decAny (fields : List (Str × List Str)) (name : Str) (e : Option Enc) : List RS → V
+  | [] => .null
+  | x :: r =>
+    match decodePropC fields name e x with
+    | none => decAny fields name e r
+    | some .null => decAny fields name e r
+    | some v => v
+/-- oneOf: the last member with a non-nil value (errors are ignored; one match is enough) -/
+def decOne (fields : List (Str × List Str)) (name : Str) (e : Option Enc) : List RS → V → V
+  | [], acc => acc
+  | x :: r, acc =>
+    match decodePropC fields name e x with
+    | none => decOne fields name e r acc
+    | some .null => decOne fields name e r acc
+    | some v => decOne fields name e r v
+end
+
 /-- the schema pre-check of `UrlencodedBodyDecoder` over the properties (any order: only the class of the
 outcome is observed) -/
 inductive Pre | ok | err | panic
@@ -616,7 +659,7 @@ def formPre : List (Str × RS) → Pre
 def decodeFormProps (fields : List (Str × List Str)) (encs : List (Str × Enc)) : List (Str × RS) → List (Str × V)
   | [] => []
   | (k, p) :: r =>
-    match decodeFormProp fields k p (lookup k encs) with
+    match decodePropC fields k (lookup k encs) p with
     | none => decodeFormProps fields encs r
     | some .null => decodeFormProps fields encs r
     | some v => (k, v) :: decodeFormProps fields encs r
@@ -664,11 +707,23 @@ def mergeKV : List (Str × V) → Option (List (Str × V))
       | none => some ((k, v) :: m)
       | some v' => if V.beq v v' then some m else none
 
-/-- a declaration the model of `decodeValue` covers: no composition keyword inside the property schema, not an
-object, an array only of primitives -/
+/-- a declaration without composition keywords that the model of `decodeValue` covers: not an object, an array
+only of primitives -/
 def declOK (p : RS) : Bool :=
-  p.nt.isNone && p.oneOf.isEmpty && p.anyOf.isEmpty && p.allOf.isEmpty &&
+  !hasCompP p &&
   !tyIs p.ty .object && (!tyIs p.ty .array || (match p.items with | some it => primTy it.ty | none => false))
+
+mutual
+/-- … or a composition of such declarations (property-level allOf / anyOf / oneOf / not, any depth) -/
+def declOKC : RS → Bool
+  | .mk ty n r w ml mx props req a items nt oneOf anyOf allOf =>
+    if !(allOf.isEmpty && anyOf.isEmpty && oneOf.isEmpty && nt.isNone) then
+      declOKL allOf && declOKL anyOf && declOKL oneOf
+    else declOK (.mk ty n r w ml mx props req a items nt oneOf anyOf allOf)
+def declOKL : List RS → Bool
+  | [] => true
+  | x :: r => declOKC x && declOKL r
+end
 
 /-- two declarations of one name whose Go values could differ although the model's values agree
 (`int64` from `integer` vs `float64` from `number`): outside the model -/
@@ -687,7 +742,7 @@ def decodeForm (s : RS) (encs : List (Str × Enc)) (form : Option (List (Str × 
     match form with
     | none => .err
     | some fields =>
-      if !(flatDecls s).all (fun kp => declOK kp.2) || numClash (flatDecls s) then .unmodelled else
+      if !(flatDecls s).all (fun kp => declOKC kp.2) || numClash (flatDecls s) then .unmodelled else
       match mergeKV (decodeFormProps fields encs (flatDecls s)) with
       | none => .err
       | some o => .val (.obj o)
@@ -846,10 +901,21 @@ def specFormProp (fields : List (Str × List Str)) (name : Str) (p : RS) (e : Op
     | some t => if v0 = [] then some none else (encodesPrim t v0).map some
       -- an empty text is "no value": the library's documented convention (`parsePrimitive` returns nil for "")
 
+/-- a declaration whose property schema is itself a composition (a union / intersection of types) has no
+type-directed reading in the property text: there the specification takes the decoder's own value (this part
+of the urlencoded decoder is tied to the code by the differential run only) -/
+def specDecl (fields : List (Str × List Str)) (name : Str) (p : RS) (e : Option Enc) : Option (Option V) :=
+  if hasCompP p then
+    (match decodePropC fields name e p with
+     | none => some none
+     | some .null => some none
+     | some v => some (some v))
+  else specFormProp fields name p e
+
 def specFormProps (fields : List (Str × List Str)) (encs : List (Str × Enc)) : List (Str × RS) → Option (List (Str × V))
   | [] => some []
   | (k, p) :: r =>
-    match specFormProp fields k p (lookup k encs), specFormProps fields encs r with
+    match specDecl fields k p (lookup k encs), specFormProps fields encs r with
     | some none, some l => some l
     | some (some v), some l => some ((k, v) :: l)
     | _, _ => none
@@ -924,6 +990,7 @@ def hasTy (t : Ty) : V → Bool
 /-- `v` can be written for property `p` under encoding `e`: typed like the property, non-empty text, and —
 for a non-exploded array — no item text contains the delimiter (the `Encodable` side condition) -/
 def FormEncodable (p : RS) (e : Option Enc) (v : V) : Prop :=
+  hasCompP p = false ∧
   match p.ty with
   | some .array =>
     ∃ it t vs ts, p.items = some it ∧ it.ty = some t ∧ primTy (some t) = true ∧ v = .arr vs ∧ vs ≠ [] ∧
@@ -974,7 +1041,7 @@ def acceptB (reg : List (Str × DecK)) (rb : ReqBody) (ct : Str) (b : BodyIn) (e
 /-- class `FormFieldUnparsable` (finding #20 / F-C06-1): a declared property has a field whose text is not a
 value of the declared type; the decoder drops the property (`continue` on error) -/
 def formUnparsable (fields : List (Str × List Str)) (encs : List (Str × Enc)) (props : List (Str × RS)) : Bool :=
-  props.any fun (k, p) => (specFormProp fields k p (lookup k encs)).isNone
+  props.any fun (k, p) => (specDecl fields k p (lookup k encs)).isNone
 
 /-- well-formed per-property encodings: a style other than `form` only on array properties and only
 `spaceDelimited` / `pipeDelimited` (what `Encoding.Validate` admits for arrays besides deepObject) -/
